@@ -8,6 +8,7 @@ mod suite06;
 mod suite07;
 mod suite13;
 mod suite14;
+mod suite16;
 mod suite19;
 
 use common::Rng;
@@ -25,6 +26,9 @@ fn exec(suite: u32, input: &[u64]) -> Vec<u64> {
         130 => suite13::exec(input),
         140 => suite14::exec140(input),
         150 => suite14::exec150(input),
+        160 => suite16::exec160(input),
+        170 => suite16::exec170(input),
+        180 => suite16::exec180(input),
         190 => suite19::exec(input),
         _ => vec![998],
     });
@@ -87,6 +91,9 @@ fn main() {
                 130 => suite13::gen(tier, &mut rng, &mut emit),
                 140 => suite14::gen140(tier, &mut rng, &mut emit),
                 150 => suite14::gen150(tier, &mut rng, &mut emit),
+                160 => suite16::gen160(tier, &mut rng, &mut emit),
+                170 => suite16::gen170(tier, &mut rng, &mut emit),
+                180 => suite16::gen180(tier, &mut rng, &mut emit),
                 190 => suite19::gen(tier, &mut rng, &mut emit),
                 _ => {}
             }
